@@ -94,6 +94,8 @@ def quick():
     # model weights
     c.append(Cfg("model_weight", (DS("ds1", T3, (0.0, 1.0, 2.0)), DS("ds2", T2, (0.0, 1.0))), model_weights=((("ds1",), (1.0, 2.0), (0.0, 1.0)), (("ds1", "ds2"), None, (1.0, INF))), groups={"default": (False, VP)}))
     c.append(Cfg("model_weight_and_dataset_weight", (DS("ds1", T2, (0.0, 1.0), weight=True),), model_weights=((("ds1",), None, None),), groups={"default": (True, VP)}))
+    c.append(Cfg("model_weight_linked", (DS("ds1", T3, (0.0, 1.0)), DS("ds2", T2, (1.0, 2.0), scale=True)), model_weights=((("ds1",), None, (1.0, 2.5)), (("ds1", "ds2"), (1.0, 2.0), None)), groups={"default": (True, VP)}))  # bounds on axis points: the reference applies a weight exactly on the closed interval (nearest-point slack is C08's ModelWeight)
+    c.append(Cfg("linked_one_stored_global_by_model", (DS("ds1", T2, (0.0, 1.0), weight=True, order="gm"), DS("ds2", T3, (1.0, 2.0), scale=True)), megacomplexes=M1D, groups={"default": (True, VP)}))
     # NNLS, several groups
     c.append(Cfg("nnls", (DS("ds1", T3, (0.0, 1.0), scale=True),), groups={"default": (False, NNLS)}))
     c.append(
